@@ -408,8 +408,21 @@ def frame(chk, F):
         fn = F.find(CRATE, "frame::Frame::" + name)
         h = F.hir_of(fn)
         body = H.simplify(H.body_of_async(h))
-        conv = [n for n in hir_walk(body) if n.get("k") == "Call" and n["f"].get("k") == "Path" and
-                n["f"]["r"].get("path", "").split("::")[-1] in ("from_ne_bytes", "to_ne_bytes", "from_le_bytes", "to_le_bytes", "from_be_bytes", "to_be_bytes")]
+        def convs(b):
+            return [n for n in hir_walk(b) if n.get("k") == "Call" and n["f"].get("k") == "Path" and
+                    n["f"]["r"].get("path", "").split("::")[-1] in ("from_ne_bytes", "to_ne_bytes", "from_le_bytes", "to_le_bytes", "from_be_bytes", "to_be_bytes")]
+        conv = convs(body)
+        helper = None
+        if not conv and name.startswith("write"):
+            # the frame may be built by a helper method of Frame into a buffer that is kept between calls
+            for m in H.method_calls(body):
+                if H.expr_str(m["recv"]).replace("&mut ", "").replace("*", "").strip("()") in ("self",) and m["name"] not in ("clear",):
+                    g = F.fns.get(m.get("id"))
+                    if g is not None and g.crate == CRATE and g.path.startswith("frame::Frame::"):
+                        hb = F.hir_of(g)["body"]
+                        if convs(hb):
+                            helper = (m, g, hb)
+                            conv = convs(hb)
         if len(conv) != 1:
             raise AnchorLost("%s: expected one length-prefix conversion, found %d" % (name, len(conv)))
         p = conv[0]["f"]["r"]["path"]
@@ -443,10 +456,23 @@ def frame(chk, F):
                         if x.get("k") in ("Try", "Ret", "Break"):
                             exits.append((x["k"], x.get("line")))
             entry["exits_between_reads"] = exits
-        else:
+        elif helper is None:
             seq = [(m["line"], m["name"]) for m in H.method_calls(body) if m["name"] in ("write_all", "flush")] + \
                   [(c["line"], "serialize") for c in H.path_calls(body, "serialize")]
             entry["order"] = [n for _, n in sorted(seq)]
+        else:
+            # kept-buffer form: the buffer must be emptied before this call's frame is put into it (in the writer before the helper
+            # call, or first thing in the helper) - emptying it only after a successful write leaves the bytes of a failed write in
+            # front of the next frame, which goes to the *new* child after a restart
+            m, g, hb = helper
+            seq = [(x["line"], x["name"]) for x in H.method_calls(body) if x["name"] in ("write_all", "flush", "clear")] + [(m["line"], "encode")]
+            order = [n for _, n in sorted(seq)]
+            hstm = [x["name"] for x in H.method_calls(hb) if x["name"] in ("clear", "extend_from_slice", "reserve", "push")] + \
+                   ["serialize_into" for _ in H.path_calls(hb, "serialize_into")]
+            if hstm[:1] == ["clear"]:
+                order = ["clear"] + order
+            entry["order"] = order
+            entry["kept_buffer"] = True
         table[name] = entry
     FK = "rink_sandbox::frame::Frame"
     widths = {(e["width"], e["endian"]) for e in table.values()}
@@ -467,6 +493,15 @@ def frame(chk, F):
                    "%s: prefix, resize buffer to exactly len, body, deserialize" % r, "%s order is %s" % (r, e["order"]))
     for w in ("write_async", "write_sync"):
         e = table[w]
+        if e.get("kept_buffer"):
+            o = e["order"]
+            first_clear = o.index("clear") if "clear" in o else 10 ** 6
+            okb = "encode" in o and first_clear < o.index("encode") and [x for x in o if x in ("encode", "write_all", "flush")] == ["encode", "write_all", "flush"]
+            chk.decide(okb, "frame-agreement", FK, w + ":order", "sandbox/src/frame.rs",
+                       "%s: empty the kept buffer, encode prefix and body into it, write, flush" % w,
+                       "%s builds the frame in a buffer that is kept between calls and does not empty it first (order %s): after a write that failed the "
+                       "unsent bytes are still there, and the handshake written to the restarted child starts with a stale request frame" % (w, o))
+            continue
         chk.decide(e["order"] == ["serialize", "write_all", "write_all", "flush"], "frame-agreement", FK, w + ":order", "sandbox/src/frame.rs",
                    "%s: serialize, prefix, body, flush" % w, "%s order is %s" % (w, e["order"]))
     chk.extra["frame_table"] = table
